@@ -177,6 +177,14 @@ func (l *IOLog) handlePoint(name string, key []byte) {
 	}
 }
 
+// SetOnPoint installs (or with nil removes) the point callback; safe while
+// other goroutines are inside the engine.
+func (l *IOLog) SetOnPoint(fn func(name string, key []byte)) {
+	l.mu.Lock()
+	l.OnPoint = fn
+	l.mu.Unlock()
+}
+
 // Seq returns the number of events seen so far.
 func (l *IOLog) Seq() int {
 	l.mu.Lock()
